@@ -174,6 +174,29 @@ theorem getLast?_join (c : Char) : ∀ (l : List Str) (z : Str), l.getLast? = so
       | cons x xs =>
         obtain ⟨y, hy⟩ : ∃ y, (x :: xs).getLast? = some y := ⟨(x :: xs).getLast (by simp), List.getLast?_eq_some_getLast _⟩
         rw [hy]; rfl
+/-- stripping a written path leaves the joined components -/
+theorem strip_lead_join_trail (c : Char) (lead trail : Str) (l : List Str) (hne : l ≠ [])
+    (hl : ∀ x ∈ lead, x = c) (ht : ∀ x ∈ trail, x = c) (hfree : ∀ x ∈ l, x ≠ [] ∧ c ∉ x) :
+    strip [c] (lead ++ join [c] l ++ trail) = join [c] l := by
+  apply strip_pad c lead _ trail hl ht
+  · cases l with
+    | nil => exact absurd rfl hne
+    | cons a rest =>
+      rw [head?_join c a rest (hfree a (by simp)).1]
+      intro e
+      have := (hfree a (by simp)).2
+      cases a with
+      | nil => simp at e
+      | cons x xs => simp at e; subst e; exact this (by simp)
+  · obtain ⟨z, hz⟩ : ∃ z, l.getLast? = some z := by
+      cases h : l.getLast? with
+      | none => simp at h; exact absurd h hne
+      | some z => exact ⟨z, rfl⟩
+    have hzl : z ∈ l := List.mem_of_getLast? hz
+    rw [getLast?_join c l z hz (hfree z hzl).1]
+    intro e
+    exact (hfree z hzl).2 (List.mem_of_getLast? e)
+
 /-- Reading a path: whatever separators lead or trail, the components come back. -/
 theorem split_strip_join (c : Char) (lead trail : Str) (l : List Str) (hne : l ≠ [])
     (hl : ∀ x ∈ lead, x = c) (ht : ∀ x ∈ trail, x = c) (hfree : ∀ x ∈ l, x ≠ [] ∧ c ∉ x) :
